@@ -196,6 +196,10 @@ def subspaces(tier):
     # option pairs that share one output position (the checksum byte behind the -S header, inside a lane or a window)
     pairs = [dict(a, **b) for a in ({'S': 1}, {'S': 2}, {'S': -4}, {'S': 3, 'e': 0x123456}) for b in ({'s': True}, {'s': True, 'r': (0, 15)}, {'s': True, 'l': 0})]
     subs.append(('one-record x header+checksum', cases([0x41, 0x70], 1, pairs)))
+    # a window shorter than the lane period leaves an image without a single byte: -s then has no byte to put the sum into
+    empt = [dict(a, **b) for a in ({'s': True, 'r': (0, 0), 'm': 'ODD'}, {'s': True, 'r': (0, 0), 'm': 'BYTE3'}, {'s': True, 'r': (0, 2), 'm': 'BYTE3'}, {'s': True, 'r': (0, 0), 'm': 'WORD1'})
+            for b in ({}, {'S': 2}, {'S': -4})]
+    subs.append(('one-record x checksum-on-empty-image', cases([0x41], 1, empt)))
     if q:
         # chained merges of the overlap bookkeeping need three records (a new record overlapping one neighbour and abutting the other)
         subs.append(('three-records-8080', cases([0x41], 3, [{}, {'r': (0, 15)}, {'l': 0}])))
